@@ -198,13 +198,32 @@ func (s *Ser) destStr(d string) string {
 	if angle {
 		return "<" + strings.ReplaceAll(strings.NewReplacer(`\`, `\\`, "<", `\<`, ">", `\>`).Replace(d), "&", "&amp;") + ">"
 	}
-	// bare: parentheses are balanced in the pool; escape them sometimes
+	// bare: parentheses must be escaped unless they are balanced pairs; escape
+	// them sometimes anyway
 	out := strings.ReplaceAll(strings.NewReplacer(`\`, `\\`).Replace(d), "&", "&amp;")
-	if s.pick("escparen", 3) == 2 {
+	if !parensBalanced(d) || s.pick("escparen", 3) == 2 {
 		out = strings.NewReplacer("(", `\(`, ")", `\)`).Replace(out)
 	}
 	// '*' and '_' in a bare destination are literal; nothing to do
 	return out
+}
+
+// parensBalanced reports whether the parentheses of d form balanced pairs
+// (never more closed than opened so far, none left open).
+func parensBalanced(d string) bool {
+	depth := 0
+	for i := 0; i < len(d); i++ {
+		switch d[i] {
+		case '(':
+			depth++
+		case ')':
+			depth--
+			if depth < 0 {
+				return false
+			}
+		}
+	}
+	return depth == 0
 }
 
 // lineStartSafeDest reports whether a spelled destination may be the first
